@@ -76,13 +76,14 @@ theorem validity_tests (len size mn mx cur e g : Int) :
 
 /-! ## validity of an index map -/
 
-/- FULL STATEMENT (`valid_iff`): `checkIndexMap im envs = .ok () ↔ ValidMap im envs`, where `ValidMap` = right length, every
-   entry an `int ≥ -1`, not all dropped, every integer of `0..max` present, and no two retained cells of one group in different
-   environments (for environments ≠ -2, the code's internal "unset" marker).
-   Proved below: the equivalence for the first five rules, with the environment rule still in the form "the environment loop
-   of the code returns normally".  Missing: `envLoop (ims.zip envs) (replicate … -2) = ok ↔ no group mixes environments`
-   (loop invariant over the `env_out` array); this part is covered by the correspondence (op `cg_check`) and by the oracle
-   (documented rules evaluated independently on every generated map, valid and invalid). -/
+/-- `valid_iff`: an index map is accepted exactly when it is valid by the documented rules (`ValidMap`: right length, every
+entry a Python `int ≥ -1`, not all dropped, every integer of `0..max` present, no two retained cells of one group in different
+environments).  Hypothesis: no environment index equals `-2`, the code's internal "unset" marker (environment indices are
+list positions, hence `≥ 0`). -/
+theorem valid_iff (im : List (Option Int)) (envs : List Int) (henv : ∀ e ∈ envs, e ≠ -2) :
+    checkIndexMap im envs = .ok () ↔ ValidMap im envs := valid_iff_aux im envs henv
+
+/-- the first five rules in the form the code tests them (no hypothesis on the environments) -/
 theorem valid_iff_partial (im : List (Option Int)) (envs : List Int) :
     checkIndexMap im envs = .ok () ↔
       im.length = envs.length ∧ (∀ x ∈ im, x.isSome = true) ∧
@@ -112,6 +113,37 @@ theorem cg_volume_SI {g : GridShape} {h : Rat} {uv ug : Sys} {envs : List Int} {
   have := siFactor_ne hug Dim.volume
   field_simp
 
+/-! ## conservation of matter, environments, chemostat flags -/
+
+/-- amount of species `s` in group `k` = sum over the member cells (`nGroups` = max + 1 coarse nodes, species-major) -/
+theorem cg_group_amount {g : GridShape} {h : Rat} {uv ug : Sys} {envs : List Int} {ns : Nat} {state : List Rat} {chem : List Int}
+    {im : List (Option Int)} {c : CgSystem} (hok : coarsegrainSystem g h uv ug envs ns state chem im = .ok c)
+    (s k : Nat) (hs : s < ns) (hk : k < nGroups im) :
+    c.state[s * nGroups im + k]? =
+      some (((im.filterMap id).zipIdx.map fun p => if p.1 = (k : Int) then state.getD (s * g.size + p.2) 0 else 0).sum) :=
+  cg_group_amount_aux hok s k hs hk
+
+/-- each species' total over the coarse nodes = its total over the retained cells -/
+theorem cg_species_total {g : GridShape} {h : Rat} {uv ug : Sys} {envs : List Int} {ns : Nat} {state : List Rat} {chem : List Int}
+    {im : List (Option Int)} {c : CgSystem} (hok : coarsegrainSystem g h uv ug envs ns state chem im = .ok c)
+    (s : Nat) (hs : s < ns) :
+    ((List.range (nGroups im)).map fun k => c.state.getD (s * nGroups im + k) 0).sum =
+      ((im.filterMap id).zipIdx.map fun p => if cgKeep p.1 then state.getD (s * g.size + p.2) 0 else 0).sum :=
+  cg_species_total_aux hok s hs
+
+/-- the environment of a group is the environment of each of its members -/
+theorem cg_env {g : GridShape} {h : Rat} {uv ug : Sys} {envs : List Int} {im : List (Option Int)} {sp : CgSpace}
+    (henv : ∀ e ∈ envs, e ≠ -2) (hok : coarsegrainGrid g h uv ug envs im = .ok sp) :
+    ∀ p ∈ (im.filterMap id).zip envs, p.1 ≠ -1 → sp.envs[p.1.toNat]? = some p.2 := cg_env_aux henv hok
+
+/-- a group is chemostated for a species exactly when some member is (flags non-negative) -/
+theorem cg_chem_any {g : GridShape} {h : Rat} {uv ug : Sys} {envs : List Int} {ns : Nat} {state : List Rat} {chem : List Int}
+    {im : List (Option Int)} {c : CgSystem} (hok : coarsegrainSystem g h uv ug envs ns state chem im = .ok c)
+    (hflags : ∀ x ∈ chem, 0 ≤ x) (s k : Nat) (hs : s < ns) (hk : k < nGroups im) :
+    c.chem[s * nGroups im + k]? =
+      some (if ∃ p ∈ (im.filterMap id).zipIdx, p.1 = (k : Int) ∧ 1 ≤ chem.getD (s * g.size + p.2) 0 then 1 else 0) :=
+  cg_chem_any_aux hok hflags s k hs hk
+
 /-! ## edges -/
 
 /-- no self-loops (`i < j` on every edge) and no pair of groups twice -/
@@ -121,14 +153,11 @@ theorem cg_no_loops_no_dups {g : GridShape} {h : Rat} {uv ug : Sys} {envs : List
 
 /- NOT PROVED for all inputs (statements kept in full; each is checked on every generated case by the oracle on the real
    code and by the correspondence of the model, and on the concrete instances below by kernel evaluation):
-   * `cg_species_total` : Σ_g cgstate[s·ncg+g] = Σ_{im i ≠ −1} state[s·n+i]            (needs injectivity of s·ncg+g for the scatter lemma)
-   * `cg_env`           : env g = env i for every member i of g                          (last-writer loop + validity)
-   * `cg_chem_any`      : cgchem[s·ncg+g] = 1 ↔ ∃ member i, chem[s·n+i] ≥ 1 (flags ≥ 0)
    * `cg_edge_iff`      : edge (g,g') ↔ g ≠ g' ∧ ∃ members sharing a face;  `cg_surface` = (#shared faces)·h²;
                           `cg_distance²` = ‖centroid g − centroid g'‖²
    * `uncg_group_total`, `uncg_dropped_zero`, `uncg_even`
    * `identity_map`     : coarsegrain id = gridToGraph on reflecting grids
-   The scatter lemmas `scatterAdd_get` / `scatterAdd_sum` (Proofs/Coarsegrain.lean) are the common core of the first three. -/
+ -/
 
 /-! ## concrete instances (kernel evaluation of the model): every clause of the property on a 4×1×1 and a 2×2×1 grid -/
 
